@@ -20,6 +20,12 @@ use std::time::Instant;
 use vharness::util::{guarded, panic_location_hook};
 
 fn cl(s: &str) -> Value {
+    // a shared path is <<"$share/", group, "/", filter symbols...>> in Router.tla
+    if let Some((group, path)) = s.strip_prefix("$share/").and_then(|r| r.split_once('/')) {
+        let mut v = vec![json!("$share/"), json!(group), json!("/")];
+        v.extend(path.chars().map(|c| json!(c.to_string())));
+        return Value::Array(v);
+    }
     Value::Array(s.chars().map(|c| json!(c.to_string())).collect())
 }
 fn uncl(v: &Value) -> String {
@@ -148,8 +154,18 @@ fn project(snap: &Value, max_conn: usize) -> Value {
         else { json!({"cid": cid, "state": true, "reqs": g["reqs"].as_array().unwrap().iter().map(req).collect::<Vec<_>>(),
                       "subs": g["subs"].as_array().unwrap().iter().map(|s| cl(s.as_str().unwrap())).collect::<Vec<_>>(), "pubrels": g["pubrels"]}) }
     }).collect();
+    // Router.shared_subscriptions: key (group name, or name/filter), members in order, whose turn, cursor
+    let mut groups: Vec<Value> = snap["groups"].as_object().unwrap().iter().map(|(k, g)| {
+        let key: Vec<Value> = match k.split_once('/') {
+            Some((name, path)) => { let mut v = vec![json!(name), json!("/")]; v.extend(path.chars().map(|c| json!(c.to_string()))); v }
+            None => vec![json!(k)],
+        };
+        json!({"key": key, "clients": g["clients"], "turn": g["turn"], "cursor": g["cursor"][1]})
+    }).collect();
+    groups.sort_by_key(|g| g["key"].to_string());
     json!({
         "conns": conns,
+        "groups": groups,
         "readyq": snap["readyq"],
         "filters": flist,
         "connMap": snap["conn_map"],
@@ -173,7 +189,11 @@ fn run_script(script: &Value, out: &mut Vec<Value>) {
         max_segment_count: cfg["seg_count"].as_u64().unwrap_or(10) as usize,
         custom_segment: None,
         initialized_filters: None,
-        shared_subscriptions_strategy: Strategy::RoundRobin,
+        shared_subscriptions_strategy: match cfg["strategy"].as_str().unwrap_or("RoundRobin") {
+            "Random" => Strategy::Random,
+            "Sticky" => Strategy::Sticky,
+            _ => Strategy::RoundRobin,
+        },
     };
     let mut router = Router::new(0, config);
     let tx = router.verif_link();
